@@ -337,21 +337,41 @@ example : (renderText { iwt := 0 } {} { o := { last := 10 } } { ty := "WORD", tx
 /-! ## D. the gap between two chunks on one line -/
 
 /-- D: chunk `b` follows chunk `a` on the same line (tidy state, `cpd.column = a.col + a.len`), tabs not
-    allowed for the alignment: exactly `b.col - (a.col + a.len)` spaces (0 in the push-right case
-    `b.col < cpd.column`) are written between what was there and the first code point of `b` -/
+    allowed for the alignment: exactly `sameLineCol - (a.col + a.len)` spaces are written between what was there and the first code
+    point of `b`, where `sameLineCol` is `b.col`, or `cpd.column` in the push-right case `b.col < cpd.column`, or one more than that
+    between two words -/
 theorem render_gap (c : OutCfg) (o : RenderOpts) (s : RSt) (a b : Chunk) (prevCol prevLen : Nat)
     (x : CP) (rest : List CP)
     (hdn : s.o.didNl = false) (ht : Tidy s.o) (hl : s.o.last ≠ 13) (hcol : s.o.col = a.col + a.len)
-    (hat : ¬ ((o.alignWithTabs = true ∧ b.wasAligned = true ∧ prevCol + prevLen + 1 ≠ max b.col s.o.col)
+    (hat : ¬ ((o.alignWithTabs = true ∧ b.wasAligned = true ∧ prevCol + prevLen + 1 ≠ sameLineCol s.o b)
               ∨ (o.alignKeepTabs = true ∧ b.afterTab = true)))
     (htxt : b.txt = x :: rest) (hb : isBlank x = false) (he : isEol x = false) :
     ∃ tail, (renderText c o s b prevCol prevLen).1.o.rout =
-      tail ++ x :: (List.replicate (b.col - (a.col + a.len)) 32 ++ s.o.rout) := by
+      tail ++ x :: (List.replicate (sameLineCol s.o b - (a.col + a.len)) 32 ++ s.o.rout) := by
   obtain ⟨hf, hl'⟩ := textIndent_gap c o s.o b prevCol prevLen hdn hl hat
   obtain ⟨tail, htl⟩ := renderText_rout_after c o s b prevCol prevLen x rest htxt hb he hl'
   refine ⟨tail, ?_⟩
   rw [htl, hf, hcol]
   simp [flushed, ht.1]
+
+/-- **two words are never written back to back**: when the last character written is a word character and the chunk starts with
+    one, at least one blank stands between them in the output — whatever columns the passes left in the chunk list (no tabs for
+    alignment) -/
+theorem render_words_apart (c : OutCfg) (o : RenderOpts) (s : RSt) (a b : Chunk) (prevCol prevLen : Nat)
+    (x : CP) (rest : List CP)
+    (hdn : s.o.didNl = false) (ht : Tidy s.o) (hl : s.o.last ≠ 13) (hcol : s.o.col = a.col + a.len)
+    (hat : ¬ ((o.alignWithTabs = true ∧ b.wasAligned = true ∧ prevCol + prevLen + 1 ≠ sameLineCol s.o b)
+              ∨ (o.alignKeepTabs = true ∧ b.afterTab = true)))
+    (htxt : b.txt = x :: rest) (hb : isBlank x = false) (he : isEol x = false)
+    (hlast : s.o.last > 0) (hk2 : isKw2 s.o.last = true) (hk1 : isKw1 x = true) :
+    ∃ tail n, (renderText c o s b prevCol prevLen).1.o.rout = tail ++ x :: (List.replicate (n + 1) 32 ++ s.o.rout) := by
+  obtain ⟨tail, h⟩ := render_gap c o s a b prevCol prevLen x rest hdn ht hl hcol hat htxt hb he
+  have hgt := sameLineCol_words s.o b x rest htxt hlast hk2 hk1
+  refine ⟨tail, sameLineCol s.o b - (a.col + a.len) - 1, ?_⟩
+  rw [h]
+  rw [hcol] at hgt
+  have e : sameLineCol s.o b - (a.col + a.len) - 1 + 1 = sameLineCol s.o b - (a.col + a.len) := by omega
+  rw [e]
 
 example : ∃ tail,
     (renderText {} {} { o := { col := 4, last := 116, didNl := false, rout := [116, 110, 105] } }
@@ -359,6 +379,10 @@ example : ∃ tail,
       tail ++ 120 :: (List.replicate (6 - (1 + 3)) 32 ++ [116, 110, 105]) :=
   render_gap {} {} { o := { col := 4, last := 116, didNl := false, rout := [116, 110, 105] } }
     { ty := "TYPE", txt := [105, 110, 116], col := 1 } { ty := "WORD", txt := [120], col := 6 } 1 3 120 []
-    rfl ⟨rfl, by intro y h; simp at h; subst h; rfl⟩ (by decide) rfl (by simp) rfl rfl rfl
+    rfl ⟨rfl, by intro y h; simp at h; subst h; rfl⟩ (by decide) rfl (by decide) rfl rfl rfl
+
+/-- `int` at column 1..3, `v0` left at column 2 by a negative indent_var_def_blk: written `int v0`, not `intv0` -/
+example : ((renderText {} {} { o := { col := 4, last := 116, didNl := false, rout := [116, 110, 105] } }
+      { ty := "WORD", txt := [118, 48], col := 2 } 1 3).1.o.rout).reverse = [105, 110, 116, 32, 118, 48] := by decide
 
 end Unc
